@@ -4,12 +4,19 @@ package strings
 import (
 	"strings"
 	"unicode"
+	"unicode/utf8"
 )
 
 func ToLowerCamel(s string) string {
+	// Walk the leading upper-case letters rune by rune: a multi-byte letter
+	// (É, К) must not be cut in the middle of its encoding.
 	i := 0
-	for i < len(s) && unicode.IsUpper(rune(s[i])) {
-		i++
+	for i < len(s) {
+		r, size := utf8.DecodeRuneInString(s[i:])
+		if !unicode.IsUpper(r) {
+			break
+		}
+		i += size
 	}
 
 	return strings.ToLower(s[:i]) + s[i:]
